@@ -337,10 +337,11 @@ pub fn probe_fill<F: Fl>(slot0: usize, tx: usize, first_id: u8, max: usize) -> u
     let mut i = 0;
     let mut stopped = false;
     while i < max {
+        // declared unconditionally: the static part of every record stays concrete
+        let slot = slot0 + i;
+        ledger::declare_send(slot, 9, first_id + i as u8);
+        ledger::mark_quiescent(slot);
         if !stopped {
-            let slot = slot0 + i;
-            ledger::declare_send(slot, 9, first_id + i as u8);
-            ledger::mark_quiescent(slot);
             op_send::<F>(slot, tx, first_id + i as u8);
             if lg().recs[slot].res == R_OK {
                 n += 1;
@@ -361,10 +362,10 @@ pub fn drain<F: Fl>(slot0: usize, rx: usize, max: usize) -> u8 {
     let mut last = R_OK;
     let mut i = 0;
     while i < max {
+        let slot = slot0 + i;
+        ledger::declare_recv(slot, 9, stream);
+        ledger::mark_quiescent(slot);
         if last == R_OK {
-            let slot = slot0 + i;
-            ledger::declare_recv(slot, 9, stream);
-            ledger::mark_quiescent(slot);
             op_recv::<F>(slot, rx);
             last = lg().recs[slot].res;
         }
